@@ -298,3 +298,25 @@ func (m *FSModel) VerifyAgainstDisk(ignore func(path string) bool) error {
 	}
 	return nil
 }
+
+// ModelFromImage returns the model of a file system that was restarted on a crash image of
+// old (paths re-rooted below newRoot, every file durable as it is in the image); events
+// recorded below newRoot by the restarted process can then be applied to it, which gives
+// the crash states of a second crash during the restart.
+func ModelFromImage(old *FSModel, img map[string][]byte, newRoot string) *FSModel {
+	m := NewFSModel(newRoot)
+	for d := range old.Dirs {
+		m.Dirs[filepath.Join(m.Root, strings.TrimPrefix(d, old.Root))] = true
+	}
+	for p, b := range img {
+		np := filepath.Join(m.Root, strings.TrimPrefix(p, old.Root))
+		m.Files[np] = &fsFile{vol: append([]byte{}, b...), dur: append([]byte{}, b...)}
+		for d := filepath.Dir(np); len(d) >= len(m.Root); d = filepath.Dir(d) {
+			m.Dirs[d] = true
+			if d == m.Root {
+				break
+			}
+		}
+	}
+	return m
+}
